@@ -115,11 +115,29 @@ func judge(input []byte) (kind, msg, class string) {
 	if perr2 != nil || !refjcs.Equal(back, v) {
 		return "C07/value-changed", fmt.Sprintf("canonical output does not parse to the input value: %s -> %s", show(input), show(out)), "ok"
 	}
+	// (encoding/json reads numbers with strconv.ParseFloat, which misreads literals of more than 800 digits: this
+	// cross-check is for inputs whose number literals are short)
 	var g1, g2 interface{}
-	if json.Unmarshal(input, &g1) == nil && (json.Unmarshal(out, &g2) != nil || !reflect.DeepEqual(g1, g2)) {
+	if !hasLongNumber(input) && json.Unmarshal(input, &g1) == nil && (json.Unmarshal(out, &g2) != nil || !reflect.DeepEqual(g1, g2)) {
 		return "C07/value-changed", fmt.Sprintf("encoding/json reads different values from input and output: %s -> %s", show(input), show(out)), "ok"
 	}
 	return "", "", "ok"
+}
+
+// hasLongNumber reports a run of more than 300 characters from the number alphabet.
+func hasLongNumber(b []byte) bool {
+	run := 0
+	for _, c := range b {
+		if (c >= '0' && c <= '9') || c == '.' || c == '-' || c == '+' || c == 'e' || c == 'E' {
+			run++
+			if run > 300 {
+				return true
+			}
+		} else {
+			run = 0
+		}
+	}
+	return false
 }
 
 func interesting(v *refjcs.Value) bool {
@@ -233,7 +251,7 @@ func TestEnumSmallTrees(t *testing.T) {
 // ---- (b, c) random values, every one in several re-serializations --------------------------------------
 
 func TestRapidRespelled(t *testing.T) {
-	ev.Rule(chkRapid, "rapid: JSON objects/arrays to depth 6 (tricky and arbitrary Unicode strings, sibling names that differ in one bit of one code point, doubles by bit pattern / near powers of ten / boundary list), one value in eight large in one respect (9-64 members with long common name prefixes, 17-200 array elements, strings of 60-600 code points, 8-40 levels of nesting); each value is serialized 6 times with drawn member order, whitespace, escape spelling (raw, short, \\uXXXX upper/lower, surrogate pairs, \\/) and number spelling (exponent/fixed forms, long mantissas, -0.0); oracle: every spelling canonicalizes to exactly the reference bytes; non-trivial = value with a non-ASCII/escaped name or string, or a non-integer / large / exponent-form number")
+	ev.Rule(chkRapid, "rapid: JSON objects/arrays to depth 6 (tricky and arbitrary Unicode strings, sibling names that differ in one bit of one code point, doubles by bit pattern / near powers of ten / boundary list), one value in eight large in one respect (9-64 members with long common name prefixes, 17-200 array elements, strings of 60-600 code points, 8-40 levels of nesting); each value is serialized 6 times with drawn member order, whitespace, escape spelling (raw, short, \\uXXXX upper/lower, surrogate pairs, \\/) and number spelling (exponent/fixed forms, long mantissas, literals of 750-1350 zeros before or after the digits, -0.0); oracle: every spelling canonicalizes to exactly the reference bytes; non-trivial = value with a non-ASCII/escaped name or string, or a non-integer / large / exponent-form number")
 	ev.Rapid(t, chkRapid, 3000, 30000, func(t *rapid.T) {
 		v := gen.JSONTop(t, rapid.IntRange(1, 6).Draw(t, "depth"))
 		shape := "small"
